@@ -319,15 +319,34 @@ def models_clause(model, rep, funcs):
                ok, norm_src(red[0])[:120] if red else "no reduce", node=f.node, fn=f, clause="4 models", stmt="def UnionAxes.create_mask")
     f = funcs.get("acryo/tilt/core.py::dual_axis")
     if f is not None:
-        src = norm_src(f.node)
-        ok = "SingleAxisY(tilt_range_y)" in src and "SingleAxisX(tilt_range_x)" in src and "UnionAxes" in src
+        # decided on symbolic terms: the result is a UnionAxes over SingleAxisY(<y range>) and SingleAxisX(<x range>), however the calls are spelled
+        from ..domains.terms import T as _T, TermDomain as _TD, subterms as _sub
+        try:
+            out_ = Interp(model, _TD(), depth=0).run(f, args={p_: _T("param", (p_,)) for p_ in f.param_names()})
+        except Exception:
+            out_ = None
+
+        def _built(name, par):
+            return any(s_.op == "new" and s_.args[0] == name and s_.args[1] and s_.args[1][0] == _T("param", (par,)) for s_ in _sub(out_)) if isinstance(out_, _T) else False
+
+        ps_ = f.param_names()
+        ok = isinstance(out_, _T) and out_.op == "new" and out_.args[0] == "UnionAxes" and len(ps_) >= 2 and _built("SingleAxisY", ps_[0]) and _built("SingleAxisX", ps_[1])
         rep.instance("SLOT.models", f.loc())
         rep.ob("SLOT", f.anchor, "dual_axis builds one Y-axis and one X-axis model from the corresponding ranges", ok, "", node=f.node, fn=f,
                clause="4 models", stmt="def dual_axis")
     f = funcs.get("acryo/tilt/core.py::single_axis")
     if f is not None:
-        src = norm_src(f.node)
-        ok = "if axis == 'y':\n        return SingleAxisY(tilt_range)" in src and "return SingleAxisX(tilt_range)" in src
+        # evaluated on terms for axis = 'y' and axis = 'x' with a given range
+        from ..domains.terms import T as _T, TermDomain as _TD
+        from ..absint import Const as _C
+        got_ = {}
+        for ax_ in ("y", "x"):
+            try:
+                got_[ax_] = Interp(model, _TD(), depth=0).run(f, args={"tilt_range": _T("param", ("tilt_range",)), "axis": _C(ax_)})
+            except Exception:
+                got_[ax_] = None
+        ok = all(isinstance(got_[a_], _T) and got_[a_].op == "new" and got_[a_].args[0] == nm_ and got_[a_].args[1] and got_[a_].args[1][0] == _T("param", ("tilt_range",))
+                 for a_, nm_ in (("y", "SingleAxisY"), ("x", "SingleAxisX")))
         rep.instance("SLOT.models", f.loc())
         rep.ob("SLOT", f.anchor, "single_axis dispatches axis 'y' / 'x' to the Y / X model with the given range", ok, "", node=f.node, fn=f,
                clause="4 models", stmt="def single_axis")
@@ -446,9 +465,50 @@ def selection_clause(model, rep, funcs):
                    "" if p in infl else f"parameter `{p}` has no data flow into `{norm_src(st)}` (flow-sensitive reaching definitions)", node=st, fn=f,
                    clause="5 selection", stmt=norm_src(st) + f" <- {p}")
     # accepted spellings: tuple -> single_axis, model object -> itself, None -> no_wedge
-    src = norm_src(f.node)
-    ok = "isinstance(tilt, TiltSeriesModel)" in src and "single_axis(tilt)" in src and "no_wedge()" in src
-    rep.ob("SLOT", f.anchor, "tilt=None -> no wedge, tilt=model -> that model, tilt=(min, max) -> single-axis model", ok, "", node=f.node, fn=f,
+    # the three ways of giving `tilt`, each evaluated on symbolic terms (helpers of tilt/core.py inlined one level): None -> NoWedge, a model -> itself,
+    # a (min, max) pair -> SingleAxisY of that pair
+    from ..domains.terms import T as _T, TermDomain as _TD
+    from ..absint import Const as _C
+
+    def _tilt_model_for(tilt_val, assume, legacy=None):
+        dom_ = _TD(assume_isinstance=assume)
+        it_ = Interp(model, dom_, depth=2)
+        got = []
+
+        def on_return(interp, fn_, st_, val_, env=None):
+            if fn_ is f and env is not None:
+                slf = env.get(f.param_names()[0])
+                flds = getattr(slf, "fields", None)
+                if flds is not None and "_tilt_model" in flds:
+                    got.append(flds["_tilt_model"])
+
+        it_.on_return.append(on_return)
+        args_ = {p_: _T("param", (p_,)) for p_ in f.param_names()[1:]}
+        args_["tilt"] = tilt_val
+        if "tilt_range" in args_:
+            args_["tilt_range"] = legacy if legacy is not None else _C(None)
+        me = Obj(f.cls, tag="self")
+        try:
+            it_.run(f, args=args_, self_val=me)
+        except Exception:
+            return None
+        if "_tilt_model" in me.fields:
+            return me.fields["_tilt_model"]
+        return got[-1] if got else None
+
+    v_none = _tilt_model_for(_C(None), {})
+    v_model = _tilt_model_for(_T("param", ("tilt",)), {"tilt": "TiltSeriesModel"})
+    v_pair = _tilt_model_for(_T("param", ("tilt",)), {"tilt": "tuple"})
+
+    def _is_new(v, name, arg=None):
+        return (isinstance(v, _T) and v.op == "new" and v.args[0] == name and (arg is None or (v.args[1] and v.args[1][0] == arg))) or \
+            (isinstance(v, Obj) and v.cls.name == name)
+
+    v_legacy = _tilt_model_for(_C(None), {"tilt_range": "tuple"}, legacy=_T("param", ("tilt_range",)))  # the deprecated keyword alone
+    ok = _is_new(v_none, "NoWedge") and v_model == _T("param", ("tilt",)) and _is_new(v_pair, "SingleAxisY", _T("param", ("tilt",))) and \
+        _is_new(v_legacy, "SingleAxisY", _T("param", ("tilt_range",)))
+    rep.ob("SLOT", f.anchor, "tilt=None -> no wedge, tilt=model -> that model, tilt=(min, max) -> single-axis model", ok,
+           "" if ok else f"None -> {v_none!r}; model -> {v_model!r}; pair -> {v_pair!r}; tilt_range= alone -> {v_legacy!r}"[:300], node=f.node, fn=f,
            clause="5 selection", stmt="def __init__ dispatch")
     wedge_call_obligation(model, rep, "5 selection")
 
